@@ -116,6 +116,10 @@ class Eval:
                 elif v[0] == "mutelem" and idx == 0:
                     v = ("mutcoef",)
                 elif v[0] == "mutelem" and idx == 1:
+                    v = ("lab", "own")
+                elif v[0] == "foundelem" and idx == 0:
+                    v = ("foundcoef",)
+                elif v[0] == "foundelem" and idx == 1:
                     v = ("lab", "t")
                 else:
                     return UNKNOWN
@@ -249,6 +253,19 @@ class Eval:
             return sc_neg(a0)
         if name == "mul" and len(args) == 2:
             return sc_mul(a0, args[1])
+        # folding: the element of self.terms that carries the same label as the visited element of other
+        if name in ("eq", "ne") and len(args) == 2 and {a0, args[1]} == {("lab", "own"), ("lab", "t")}:
+            return ("pred", "samelabel" if name == "eq" else "otherlabel")
+        if name in ("find", "find_map") and len(args) == 2 and a0 is not None and a0[0] == "iter" and a0[1] == "selfmut":
+            r = self.apply_closure(args[1], [a0[2]])
+            if r == ("pred", "samelabel"):
+                return ("opt", ("foundelem",))
+            return UNKNOWN
+        if name in ("add_assign", "sub_assign") and len(args) == 2 and a0 == ("foundcoef",):
+            x = args[1] if name == "add_assign" else sc_neg(args[1])
+            # adding x to the coefficient of the term labelled t means the same as appending (x, t)
+            self.effect("APPEND", ("elem", x, ("lab", "t")))
+            return ("unit",)
         if name == "mul_assign" and len(args) == 2 and a0 == ("mutcoef",):
             self.effect("UPDATE", sc_mul(("sc", 1, ("c",)), args[1]))
             return ("unit",)
@@ -339,7 +356,13 @@ def analyse(facts, body, rhs_kind):
                 true_t = [t.get("otherwise")] if false_t else []
                 if false_t and true_t[0] is not None and true_t[0] != false_t[0]:
                     arms.append(("one" if v[1] == "is_one" else "zero", true_t[0], false_t[0]))
-    effects = [(k, v, blk) for (k, v, blk) in ev.effects]
+    effects = []
+    for (k, v, blk) in ev.effects:
+        # the same effect in two mutually exclusive places (the arms of a `match`) is one effect
+        dup = [e for e in effects if e[0] == k and e[1] == v and e[2] is not None and blk is not None
+               and not body.dominates(e[2], blk) and not body.dominates(blk, e[2])]
+        if not dup:
+            effects.append((k, v, blk))
 
     def under(entry, blk):
         return blk is not None and body.dominates(entry, blk)
